@@ -355,7 +355,7 @@ Proof.
     rewrite Hs. change (skipz 2 (60 :: 47 :: name ++ ws ++ [62])) with (name ++ ws ++ [62]).
     apply name_run_app; [exact Hname|]. right. destruct ws as [|w ws']; [exists 62, []; split; reflexivity|].
     exists w, (ws' ++ [62]). split; [reflexivity|]. apply is_tagend_ws. inversion Hws; assumption. }
-  rewrite Hname_run. rewrite len_app. rewrite Hcl, Hp.
+  change (tb no_tmpl) with (@nil Z). rewrite Hname_run. rewrite len_app. rewrite Hcl, Hp.
   replace (len pre + 2 + (len name + len ws) + 1 - len pre) with (3 + len name + len ws) by lia.
   replace (2 <=? 3 + len name + len ws) with true by (symmetry; apply Z.leb_le; lia).
   eexists. split; [reflexivity|].
@@ -1366,10 +1366,10 @@ Proof.
   assert (Hlens : len (content ++ 60 :: 47 :: ename ++ erest) = len content + 2 + len ename + len erest) by (rewrite len_app, !len_cons, len_app; lia).
   apply (loop_scan2 _ z has (len content)); [lia| | |eapply fuel_of_enough; [exact Hr|lia]].
   - intros i Hi. destruct (peekz_in content i Hi) as (c & Hcc & Hci). rewrite Forall_forall in Hc. specialize (Hc c Hci).
-    unfold rawtext_body. rewrite pkr_mv0, (reads_pkr z _ i c Hr (peekz_app_l' _ _ _ _ Hcc)). cbn [rbind].
-    replace (c =? 60) with false by (symmetry; apply Z.eqb_neq; exact Hc). rewrite tmpl_at_none. cbn [rbind].
+    unfold rawtext_body. rewrite pkr_mv0, (reads_pkr z _ i c Hr (peekz_app_l' _ _ _ _ Hcc)). cbn [rbind]. rewrite skip_tmpl_none. cbn [rbind].
+    replace (c =? 60) with false by (symmetry; apply Z.eqb_neq; exact Hc).
     rewrite (reads_eof0_in z _ i c Hr (peekz_app_l' _ _ _ _ Hcc)). rewrite mv_mv. reflexivity.
-  - unfold rawtext_body. rewrite pkr_mv0, (reads_pkr z _ (len content) 60 Hr) by (rewrite peekz_app_r0; apply peekz_cons_0). cbn [rbind].
+  - unfold rawtext_body. rewrite pkr_mv0, (reads_pkr z _ (len content) 60 Hr) by (rewrite peekz_app_r0; apply peekz_cons_0). cbn [rbind]. rewrite skip_tmpl_none. cbn [rbind].
     change (60 =? 60) with true.
     rewrite pkr_mv, (reads_pkr z _ (len content + 1) 47 Hr) by (rewrite peekz_app_rk by lia; apply peekz_1). cbn [rbind].
     change (47 =? 47) with true.
@@ -1443,9 +1443,9 @@ Qed.
 
 Lemma shift_bogus_run z k bs rest : lx_wf z -> lstart z = lpos z -> 0 <= k -> 2 <= k + len bs ->
   reads (mv z k) (bs ++ 62 :: rest) -> Forall (fun c => c <> 62) bs ->
-  shift_bogus (mv z k) = Ok (mkSl (lpos z) (k + len bs + 1), mkSl (lpos z + 2) (k + len bs - 2), skip (mv z (k + len bs + 1))).
+  forall has, shift_bogus no_tmpl (mv z k) has = Ok (mkSl (lpos z) (k + len bs + 1), mkSl (lpos z + 2) (k + len bs - 2), skip (mv z (k + len bs + 1)), has).
 Proof.
-  intros Hw Hcl Hk H2 Hr Hb. pose proof (len_nonneg bs). pose proof (len_nonneg rest).
+  intros Hw Hcl Hk H2 Hr Hb has. pose proof (len_nonneg bs). pose proof (len_nonneg rest).
   unfold shift_bogus. unfold with_tmpl_lx; rewrite loop_with_no_tmpl; rewrite (bogus_loop_run _ bs rest Hr Hb). cbn [rbind fst snd].
   destruct Hr as [Hwk Hrem].
   destruct (rem_mv _ (len bs) Hwk) as [_ Hw1]; [rewrite Hrem, len_app, len_cons; lia|].
@@ -1453,7 +1453,7 @@ Proof.
   destruct (rem_mv _ (len bs + 1) Hwk) as [_ Hw2]; [rewrite Hrem, len_app, len_cons; lia|].
   assert (Hw2' : lx_wf (mv (mv (mv z k) (len bs)) 1)) by (rewrite (mv_mv (mv z k)); exact Hw2).
   rewrite shiftv_spec by exact Hw2'. cbn [rbind fst snd mv lstart lpos lbuf skip]. rewrite Hcl.
-  do 3 f_equal; [f_equal; lia|f_equal; lia|].
+  do 4 f_equal; [f_equal; lia|f_equal; lia|].
   rewrite !mv_mv. f_equal. lia.
 Qed.
 
@@ -1745,15 +1745,15 @@ Qed.
 (* bogus comments cut by the end of input *)
 Lemma shift_bogus_eof z k bs : lx_wf z -> lstart z = lpos z -> 0 <= k -> 2 <= k + len bs ->
   reads (mv z k) bs -> Forall (fun c => c <> 62) bs ->
-  shift_bogus (mv z k) = Ok (mkSl (lpos z) (k + len bs), mkSl (lpos z + 2) (k + len bs - 2), skip (mv z (k + len bs))).
+  forall has, shift_bogus no_tmpl (mv z k) has = Ok (mkSl (lpos z) (k + len bs), mkSl (lpos z + 2) (k + len bs - 2), skip (mv z (k + len bs)), has).
 Proof.
-  intros Hw Hcl Hk H2 Hr Hb. pose proof (len_nonneg bs).
+  intros Hw Hcl Hk H2 Hr Hb has. pose proof (len_nonneg bs).
   unfold shift_bogus. unfold with_tmpl_lx; rewrite loop_with_no_tmpl; rewrite (bogus_loop_eof _ bs Hr Hb). cbn [rbind fst snd]. rewrite mv_0.
   destruct Hr as [Hwk Hrem].
   destruct (rem_mv _ (len bs) Hwk) as [_ Hw1]; [rewrite Hrem; lia|].
   rewrite lexeme_from_spec by (exact Hw1 || (cbn [mv lpos lstart]; lia)). cbn [rbind].
   rewrite shiftv_spec by exact Hw1. cbn [rbind fst snd mv lstart lpos lbuf skip]. rewrite Hcl.
-  do 3 f_equal; [f_equal; lia|f_equal; lia|].
+  do 4 f_equal; [f_equal; lia|f_equal; lia|].
   rewrite !mv_mv. reflexivity.
 Qed.
 
@@ -1864,7 +1864,7 @@ Proof.
     rewrite Hs. change (skipz 2 (60 :: 47 :: name ++ ws)) with (name ++ ws).
     apply name_run_app; [exact Hname|]. destruct ws as [|w ws']; [left; reflexivity|right].
     exists w, ws'. split; [reflexivity|]. apply is_tagend_ws. inversion Hws; assumption. }
-  rewrite Hname_run. rewrite len_app. rewrite Hcl, Hp.
+  change (tb no_tmpl) with (@nil Z). rewrite Hname_run. rewrite len_app. rewrite Hcl, Hp.
   replace (len pre + 2 + (len name + len ws) - len pre) with (2 + len name + len ws) by lia.
   replace (2 <=? 2 + len name + len ws) with true by (symmetry; apply Z.leb_le; lia).
   eexists. split; [reflexivity|].
